@@ -226,15 +226,29 @@ def main(tier: str) -> int:
     qlist = lambda v: "[" + ", ".join("(%d : Rat) / 4" % int(round(x * 4)) for x in v) + "]"   # noqa: E731
     for a_, b_ in mcases:
         alines.append("#eval IO.println (showR (Metrics_mse %s %s))" % (qlist(a_), qlist(b_)))
+    rcases_ = []
+    for _ in range(20 if tier == "quick" else 150):
+        n_ = rng.randint(1, 7)
+        yt_ = [rng.randint(-8, 8) / 4 for _ in range(n_)] if rng.random() < 0.8 else [rng.randint(-8, 8) / 4] * n_     # every fifth: a constant target
+        rcases_.append((yt_, [rng.randint(-8, 8) / 4 for _ in range(n_)]))
+    alines.insert(0, "import TFV.Generated.Src.Metrics_r2")
+    for a_, b_ in rcases_:
+        alines.append("#eval IO.println (showR (Metrics_r2 %s %s))" % (qlist(a_), qlist(b_)))
     aaudit = C.LEAN / "TFV" / "Audit" / "C19_np.lean"
     aaudit.parent.mkdir(parents=True, exist_ok=True)
     aaudit.write_text("\n".join(alines) + "\n")
     with C.LeanLock():
         apr = subprocess.run(["lake", "env", "lean", str(aaudit.relative_to(C.LEAN))], cwd=C.LEAN, capture_output=True, text=True, timeout=900)
     agot = [l.strip() for l in apr.stdout.splitlines() if l.strip()]
-    chk.obligation("the translated accuracy_score and mean squared error evaluate (lake env lean TFV/Audit/C19_np.lean)", apr.returncode == 0 and len(agot) == len(acases) + len(mcases),
+    chk.obligation("the translated accuracy_score, mean squared error and coefficient_determination evaluate (lake env lean TFV/Audit/C19_np.lean)", apr.returncode == 0 and len(agot) == len(acases) + len(mcases) + len(rcases_),
                    (apr.stdout + apr.stderr)[-600:])
-    if apr.returncode == 0 and len(agot) == len(acases) + len(mcases):
+    if apr.returncode == 0 and len(agot) == len(acases) + len(mcases) + len(rcases_):
+        for (a_, b_), g in zip(rcases_, agot[len(acases) + len(mcases):]):
+            real = float(M.coefficient_determination(np.array(a_, dtype=np.float64), np.array(b_, dtype=np.float64)))
+            val = None if g == "none" else int(g.split("/")[0]) / int(g.split("/")[1])
+            chk.count("np_kernel_r2" + ("_constant_target" if len(set(a_)) == 1 else ""))
+            (chk.agree("np_kernel:r2") if val is not None and C.close(real, val, 1e-6, 1e-9) else
+             chk.disagree("np_kernel:r2", {"input": {"y_true": a_, "y_predict": b_}, "impl": real, "model": g}))
         for (a_, b_), g in zip(mcases, agot[len(acases):]):
             real = float(M.root_mean_square_error(np.array(a_, dtype=np.float64), np.array(b_, dtype=np.float64))) ** 2
             val = None if g == "none" else int(g.split("/")[0]) / int(g.split("/")[1])
